@@ -212,7 +212,11 @@ def materialise(world, top, schedule=None):
         f.write("exclude = [" + ", ".join(json.dumps(x) for x in world.get("excludes", [])) + "]\n")
         for p in plats:
             f.write(f"\n[platform.{p['name']}]\n")
-            f.write("commands = " + json.dumps(os.path.join(top, p["db"])) + "\n")
+            dbp = os.path.join(top, p["db"])
+            if schedule.get("db_rel"):
+                # relative to the directory the front ends are started in (the root)
+                dbp = os.path.relpath(dbp, root)
+            f.write("commands = " + json.dumps(dbp) + "\n")
     return root
 
 
